@@ -16,6 +16,7 @@ C03 — The parser builds the tree the source spells out.
 import Anko.Proofs.Pratt
 import Anko.Proofs.PrattDet
 import Anko.Proofs.ScanString
+import Anko.Proofs.ScanNumber
 import Anko.Proofs.Literal
 import Anko.Gen.ParserGen
 import Anko.Gen.Prec
@@ -247,6 +248,36 @@ theorem string_literal_denotes_its_text (cs post : List Char) (s : Scan.S) (n : 
     (h : s.rest = '"' :: (Scan.escape cs ++ '"' :: post)) :
     ∃ s', Scan.scan (n + 1) s = .ok (⟨.str (String.ofList cs), s.pos⟩, s') ∧ s'.rest = post ∧ s'.src = s.src :=
   Scan.scan_string_literal cs post s n h
+
+/-- Where a numeric literal ends depends on its base only: after `0x` / `0X` the scanner takes exactly the
+run of hexadecimal digits - the digits `e` and `E` included, which are no exponent markers here - and stops at
+the first other character (an operator written directly against the literal, say), leaving it for the next token. -/
+theorem hex_literal_ends_at_first_non_hex_digit (s : Scan.S) (x : Char) (ds tl : List Char)
+    (hr : s.rest = '0' :: x :: (ds ++ tl)) (hx : x = 'x' ∨ x = 'X')
+    (hds : ∀ d ∈ ds, Scan.isHex d = true)
+    (htl : ∀ c, tl.head? = some c → Scan.isHex c = false ∧ Scan.isLetter c = false) :
+    ∃ s', Scan.scanNumber s = .ok (String.ofList ('0' :: 'x' :: ds), s') ∧ s'.rest = tl :=
+  Scan.scan_hex_literal s x ds tl hr hx hds htl
+
+theorem binary_literal_ends_at_first_non_binary_digit (s : Scan.S) (x : Char) (ds tl : List Char)
+    (hr : s.rest = '0' :: x :: (ds ++ tl)) (hx : x = 'b' ∨ x = 'B')
+    (hds : ∀ d ∈ ds, Scan.isBinary d = true)
+    (htl : ∀ c, tl.head? = some c → Scan.isBinary c = false ∧ Scan.isLetter c = false) :
+    ∃ s', Scan.scanNumber s = .ok (String.ofList ('0' :: 'b' :: ds), s') ∧ s'.rest = tl :=
+  Scan.scan_bin_literal s x ds tl hr hx hds htl
+
+/-- a run of decimal digits not followed by `.`, an exponent marker, a digit or a letter is one integer literal -/
+theorem decimal_digit_run_is_one_literal (s : Scan.S) (d0 : Char) (ds tl : List Char)
+    (hr : s.rest = d0 :: (ds ++ tl)) (hd0 : Scan.isDigit d0 = true)
+    (hpre : d0 = '0' → ds.head? ≠ some 'x' ∧ ds.head? ≠ some 'X' ∧ ds.head? ≠ some 'b' ∧ ds.head? ≠ some 'B')
+    (hds : ∀ d ∈ ds, Scan.isDigit d = true)
+    (htl : ∀ c, tl.head? = some c → Scan.isDigit c = false ∧ c ≠ '.' ∧ c ≠ 'e' ∧ c ≠ 'E' ∧ Scan.isLetter c = false) :
+    ∃ s', Scan.scanNumber s = .ok (String.ofList (d0 :: ds), s') ∧ s'.rest = tl :=
+  Scan.scan_decimal_literal s d0 ds tl hr hd0 hpre hds htl
+
+/-- `0xe-1` is `0xe`, `-`, `1` (hypotheses satisfiable; whole scanner, by evaluation) -/
+example : (Scan.lex "a = 0xe-1").1.map (·.tok) = [.ident "a", .ch '=', .number "0xe", .ch '-', .number "1", .eof] := by decide +kernel
+example : (Scan.lex "0x1e+2e1").1.map (·.tok) = [.number "0x1e", .ch '+', .number "2e1", .eof] := by decide +kernel
 
 example : Scan.escape ['a', '"', '\\', '\n', 'b'] = ['a', '\\', '"', '\\', '\\', '\\', 'n', 'b'] := by decide
 example : (Scan.lex "x = \"a\\\"b\\n\"").1.map (·.tok) = [.ident "x", .ch '=', .str "a\"b\n", .eof] := by decide +kernel
